@@ -186,11 +186,11 @@ def validate(c, cfg, traces, chunk=1500):
                 n = json.loads(vlib.tla_unquote(pr))
                 ti, ei = index[n["st"] - 1]
                 new = (n["ev"], tuple(sorted(n["labels"])), n["mut"], n["ok"], n["fresh"])
-                old = notes.get((part[ti][0], ei))
-                # the model may hold several candidate states at a line (allowed alternatives); keep the
-                # smallest label set so that the signature of a rejection does not depend on TLC's order
-                if old is None or (len(new[1]), new[1]) < (len(old[1]), old[1]):
-                    notes[(part[ti][0], ei)] = new
+                # the model may hold several candidate states at a line (allowed alternatives): keep all notes
+                lst = notes.setdefault((part[ti][0], ei), [])
+                if new not in lst:
+                    lst.append(new)
+                    lst.sort(key=lambda v: (len(v[1]), v[1]))
         if len(hwm) != len(resets) or not r.ok:
             raise vlib.InfraError("trace validation failed (%s, violated=%s):\n%s" % (cfg, r.violated, r.out[-5000:]))
         c.cov["states"] += r.distinct
@@ -207,13 +207,26 @@ def validate(c, cfg, traces, chunk=1500):
     return rej, notes
 
 
-def signature(x):
-    ev, note = x["event"] or {}, x["note"]
-    if note is None:
-        return "%s:unlabelled:ok=%s" % (ev.get("ev"), ev.get("ok"))
-    name, labels, mut, ok, fresh = note
-    who = "" if ev.get("who") in ("none", "match") or not ok else ":who=" + str(ev.get("who"))
-    return "%s:%s:mut=%s:ok=%s:fresh=%s%s" % (name, "+".join(labels), mut, ok, fresh, who)
+def signatures(x):
+    """Candidate signatures of a rejection, one per candidate state of the model at that line (smallest label
+    set first).  The line is rejected in every candidate state; it is a recorded finding if it is one in some."""
+    ev, cand = x["event"] or {}, x["note"]
+    if not cand:
+        return ["%s:unlabelled:ok=%s" % (ev.get("ev"), ev.get("ok"))]
+    out = []
+    for name, labels, mut, ok, fresh in cand:
+        who = "" if ev.get("who") in ("none", "match") or not ok else ":who=" + str(ev.get("who"))
+        out.append("%s:%s:mut=%s:ok=%s:fresh=%s%s" % (name, "+".join(labels), mut, ok, fresh, who))
+    return out
+
+
+def signature(c, x):
+    sigs = signatures(x)
+    for sg in sigs:
+        for k in c._known:
+            if k.get("status", "known") == "known" and re.fullmatch(k["signature"], sg):
+                return sg
+    return sigs[0]
 
 
 def run(c):
@@ -221,7 +234,7 @@ def run(c):
     # 1. design level
     mc = c.tlc_must_pass("Session", c.pick("Session_mc.cfg", "Session_mc_thorough.cfg"), workers=6,
                          timeout=c.pick(400, 1500), coverage=True)
-    acts = re.findall(r"^<(\w+) line (\d+), col \d+ to line \d+, col \d+ of module Session(?: \\((\d+) \d+ \d+ \d+\\))?>: (\d+):(\d+)", mc.out, re.M)
+    acts = re.findall(r"^<(\w+) line (\d+), col \d+ to line \d+, col \d+ of module Session(?: \((\d+) \d+ \d+ \d+\))?>: (\d+):(\d+)", mc.out, re.M)
     dead = ["%s@%s" % (n, sub or ln) for n, ln, sub, d, t in acts if int(t) == 0]
     if dead or len(acts) < 8:
         raise vlib.InfraError("actions never taken in the exhaustive model (or no coverage output): %s" % dead)
@@ -256,11 +269,11 @@ def run(c):
     tby = dict(traces)
     reported = 0
     for x in rej:
-        sig = signature(x)
+        sig = signature(c, x)
         ev = x["event"] or {}
         rawev = raw_by[x["trace"]][x["index"]] if x["index"] >= 0 else {}
         fresh = c.report(sig, "SessionStore call contradicts the session model at event %d of %s: %s (token state %s)" %
-                         (x["index"], x["trace"], json.dumps(rawev, sort_keys=True), x["note"][1] if x["note"] else "?"),
+                         (x["index"], x["trace"], json.dumps(rawev, sort_keys=True), [v[1] for v in x["note"]] if x["note"] else "?"),
                          dict(program=next(p for p in progs if p["name"] == x["trace"]), trace=raw_by[x["trace"]],
                               rejected_index=x["index"], tlc=x["tlc_tail"]))
         if not fresh:
@@ -273,18 +286,19 @@ def run(c):
     if again and reported < 5:
         rej2, notes2 = validate(c, "SessionTrace_known.cfg", again)
         for k, v in notes2.items():
-            notes.setdefault(k, v)
+            notes[k] = sorted(set(notes.get(k, [])) | set(v), key=lambda n: (len(n[1]), n[1]))
         for x in rej2[:3]:
             rawev = raw_by[x["trace"]][x["index"]] if x["index"] >= 0 else {}
-            c.report("beyond-known:" + signature(x),
+            c.report("beyond-known:" + signatures(x)[0],
                      "SessionStore call is not explained even by the recorded deviations, event %d of %s: %s" %
                      (x["index"], x["trace"], json.dumps(rawev, sort_keys=True)),
                      dict(program=next(p for p in progs if p["name"] == x["trace"]), trace=raw_by[x["trace"]],
                           rejected_index=x["index"], tlc=x["tlc_tail"]))
     # 6. evidence
     classes = {}
-    for (tn, ei), v in notes.items():
-        classes[v] = classes.get(v, 0) + 1
+    for (tn, ei), vs in notes.items():
+        for v in vs:
+            classes[v] = classes.get(v, 0) + 1
     mutkinds = {}
     nev = 0
     for n, evs in raw:
